@@ -68,4 +68,9 @@ InvShiftEquiv ==
                                            = Sub(X2.adj[r.inp, "obs", c], X2.adj[r.inp, "fcst", c])
 \* the climatology is never a scored input
 InvClimNeverScored == ctx.n = 0 \/ ctx.n = Len(D.inputs)
+\* ---- witnesses against vacuity (tools/vacuity.py): each is the NEGATION of a lemma's antecedent and must be VIOLATED by some enumerated case ----
+W_SameTGrid == ~("T" \in O.given /\ SameTGrid /\ Cardinality({j \in DOMAIN D.inputs : D.inputs[j].hasObs}) >= 2)
+W_DifferentTGrid == ~("T" \in O.given /\ ~SameTGrid)
+W_Shift == ~(ctx.n > 0 /\ D.hasClim /\ D.climType = "subtract")
+W_ObsBorrowed == ~(ctx.n > 1 /\ \E j \in DOMAIN D.inputs : ~D.inputs[j].hasObs)
 =============================================================================
